@@ -313,6 +313,12 @@ func (g *Eng) Op(t []string) string {
 		return g.compact(t[1], t[2], t[3])
 	case "files":
 		return strconv.Itoa(len(g.e.FileStore.Files()))
+	case "snapoff": // Compactor.DisableSnapshots: the next WriteSnapshot fails after Cache.Snapshot
+		g.e.Compactor.DisableSnapshots()
+		return "ok"
+	case "snapon":
+		g.e.Compactor.EnableSnapshots()
+		return "ok"
 	case "reopen":
 		if err := g.closeLive(); err != nil {
 			return "err:close:" + clean(err.Error())
